@@ -67,8 +67,8 @@ def directed_cases(seed: int, tier: str) -> typing.List[dict]:
         # "" = the texts shorter than two characters; every other block owns one two-character prefix
         out.append({"label": "exhaustive-%r" % first, "mode": "exhaustive", "first": first, "max_len": max_len})
     out.append({"label": "directed-copy-header", "mode": "copy", "texts": ["a  \r\nb\r\nlast", "a \nb\n", "x", "", "\n", "a\r\n", "l1\nl2  ", "\r\n\r\n\r\n\r\nq"]})
-    for li, (lang, tpl) in enumerate([("c", None), ("c", "crlf"), ("py", None), ("cpp", "blanky"), ("py", "crlf")]):
-        out.append({"label": "directed-system-%s-%s" % (lang, tpl), "mode": "system", "dsdl_seed": [seed, PROP, "directed", li % 2], "lang": lang, "templates": tpl})
+    for li, (lang, tpl, flags) in enumerate([("c", None, {}), ("c", "crlf", {}), ("py", None, {}), ("cpp", "blanky", {"pp_max_empty": 1}), ("py", "crlf", {}), ("c", "blanky", {}), ("py", "blanky", {"pp_trim": True}), ("cpp", "blanky", {"pp_max_empty": 2, "pp_trim": True}), ("c", "blanky", {"pp_max_empty": 3})]):
+        out.append({"label": "directed-system-%s-%s-%d" % (lang, tpl, li), "mode": "system", "dsdl_seed": [seed, PROP, "directed", li % 2], "lang": lang, "templates": tpl, "flags": flags})
     return out
 
 
@@ -386,10 +386,13 @@ def _system_case(case: dict, ctx: dict, bump: typing.Callable) -> typing.Tuple[l
         tpl = case.get("templates", r.choice([None, None, "crlf", "blanky", "by_kind"]) if "lang" not in case else None)
         if tpl and usertpl.usable_for(lang, tpl):
             opts["templates"] = tpl
-        if r.chance(1, 2):
-            opts["pp_trim"] = True
-        if r.chance(1, 2):
-            opts["pp_max_empty"] = r.choice([0, 1, 2])
+        if "flags" in case:
+            opts.update(case["flags"])
+        else:
+            if r.chance(1, 2):
+                opts["pp_trim"] = True
+            if r.chance(1, 2):
+                opts["pp_max_empty"] = r.choice([0, 1, 2])
         seeds = [r.below(1 << 30) for _ in range(4)]
     if opts.get("templates"):
         usertpl.plant(world.tpl_dir, opts["templates"], usertpl.SETS[opts["templates"]])
@@ -402,6 +405,51 @@ def _system_case(case: dict, ctx: dict, bump: typing.Callable) -> typing.Tuple[l
     v = []
     states = set()
     ev = 1
+    # ---- per-file oracle at system level: the same generation with the language's line processors neutralised by a
+    # configuration file gives the raw text of every file; the real run must equal the whole-text reference applied to it
+    # (this also sees state that a processor carries from one file of a run into the next)
+    lang_limit, lang_trim = (1, True) if opts["lang"] in ("c", "py") else (None, False)
+    procs = []  # type: typing.List[list]
+    if opts.get("pp_trim"):
+        procs.append(["trim"])
+    if opts.get("pp_max_empty") is not None:
+        procs.append(["limit", opts["pp_max_empty"]])
+    if lang_limit is not None and not any(p[0] == "limit" for p in procs):
+        procs.append(["limit", lang_limit])
+    if lang_trim and not any(p[0] == "trim" for p in procs):
+        procs.append(["trim"])
+    cfg = os.path.join(sandbox, "raw.yaml")
+    with open(cfg, "w", encoding="utf-8") as f:
+        f.write("nunavut.lang.%s:\n  limit_empty_lines: 1000000\n  trim_trailing_whitespace: false\n" % opts["lang"])
+    raw_opts = {k: val for k, val in opts.items() if k not in ("pp_trim", "pp_max_empty")}
+    raw_opts["extra_argv"] = ["--configuration", cfg, "--verbose"]
+    nnvg._force_rmtree(world.out_dir)  # pylint: disable=protected-access
+    raw = proc.run_invocation(world.invocation(raw_opts))
+    ev += 1
+    if nnvg.succeeded(raw):
+        raw_tree = _read_tree(world.out_dir)
+        bump("ops", "system-raw-run")
+        for rel in sorted(base_tree):
+            if rel not in raw_tree:
+                continue
+            try:
+                want = reference(raw_tree[rel].decode("utf-8"), procs).encode("utf-8")
+            except UnicodeDecodeError:
+                continue
+            if base_tree[rel] != want:
+                got_t = base_tree[rel].decode("utf-8", "replace")
+                want_t = want.decode("utf-8", "replace")
+                i = next((k for k in range(min(len(got_t), len(want_t))) if got_t[k] != want_t[k]), min(len(got_t), len(want_t)))
+                v.append(
+                    {
+                        "signature": "%s:system:file-differs-from-whole-text-reference:%s" % (PROP, procs_name(procs)),
+                        "detail": {"opts": opts, "path": rel, "procs": procs, "at": i, "got": got_t[max(0, i - 30) : i + 30], "want": want_t[max(0, i - 30) : i + 30]},
+                    }
+                )
+                break
+        states.add("system-reference|%s|%s|%s" % (opts["lang"], opts.get("templates"), procs_name(procs)))
+    else:
+        bump("ops", "system-raw-run-fails")
     for cs in seeds:
         nnvg._force_rmtree(world.out_dir)  # pylint: disable=protected-access
         res = proc.run_invocation(world.invocation(opts, chunk_seed=cs))
